@@ -119,6 +119,12 @@ class SymBuilder:
     def tuple(self, *items):
         return VTuple(items)
 
+    def sopt(self, name, mk):
+        """Optional value kept symbolic (no case split): (is None?, value)"""
+        isnone = self.ctx._const(name + '.isnone', z3.BoolSort())
+        self.leaves[name + '.isnone'] = ('bool', VBool(isnone))
+        return VOpt(isnone, mk())
+
     def io(self, name, kind):
         o = self.ctx.new_io(kind, name)
         h = self.ctx.heap[o.oid]
@@ -127,7 +133,7 @@ class SymBuilder:
         self.objects[name] = o
         return o
 
-    def obj(self, _name, _cls, sealed=True, **fields):
+    def obj(self, _name, _cls, /, sealed=True, **fields):
         o = self.ctx.alloc(HObj(_cls, 'obj', dict(fields), closed=sealed))
         self.objects[_name] = o
         return o
